@@ -310,6 +310,7 @@ func (s *Sim) heartbeatProbe() {
 	src := udpAddr("10.77.0.7:8805")
 	from := s.n4.outLen()
 	s.stepNo++
+	s.stepA.Store(int64(s.stepNo))
 	s.bump()
 	s.logEvent("n4 in (heartbeat probe) seq=%d", pm.Seq)
 	s.n4.inject(pm.Marshal(), src)
